@@ -22,7 +22,9 @@ import time
 VERIF = os.path.dirname(os.path.dirname(os.path.abspath(__file__)))
 REPO = os.environ.get("VERIF_REPO", "/repo")
 COQ = os.path.join(VERIF, "coq")
-BUILD = os.path.join(VERIF, "build")
+BUILD = os.environ.get("VERIF_BUILD_DIR", os.path.join(VERIF, "build"))
+# where evidence/ and replays/ are written (overridden when a check is run against a scratch copy of /repo)
+OUT = os.environ.get("VERIF_OUT_DIR", VERIF)
 NPROC = os.cpu_count() or 4
 
 # Axioms of the standard library that a theorem may depend on (each one is named in
@@ -278,7 +280,7 @@ def ocaml_driver(pid, timeout=900):
     return rc == 0, out[-4000:]
 
 
-def cargo_build(ws, bins=None, release=False, rustflags=None, timeout=3000, features=None):
+def cargo_build(ws, bins=None, release=False, rustflags=None, timeout=3000, features=None, extra=None):
     """Build harness workspace `ws` (dir under harness/) against /repo's current tree."""
     wd = os.path.join(VERIF, "harness", ws)
     lockf = os.path.join(wd, "Cargo.lock")
@@ -288,6 +290,8 @@ def cargo_build(ws, bins=None, release=False, rustflags=None, timeout=3000, feat
     if rustflags:
         env["RUSTFLAGS"] = rustflags
     cmd = "cargo build --offline -j%d" % NPROC
+    if extra:
+        cmd += " " + extra
     if release:
         cmd += " --release"
     for b in bins or []:
@@ -333,7 +337,7 @@ class Ctx:
                         self.known_hits.append(msg)
                         print(msg, flush=True)
                     return False
-        d = os.path.join(VERIF, "replays", self.pid)
+        d = os.path.join(OUT, "replays", self.pid)
         os.makedirs(d, exist_ok=True)
         body = dict(replay_obj)
         body.update({"property": self.pid, "what": what, "no_failing_input_found": bool(no_input),
@@ -365,8 +369,8 @@ class Ctx:
         }
         if self.notes:
             ev["coverage"]["notes"] = self.notes
-        os.makedirs(os.path.join(VERIF, "evidence"), exist_ok=True)
-        p = os.path.join(VERIF, "evidence", "%s.json" % self.pid)
+        os.makedirs(os.path.join(OUT, "evidence"), exist_ok=True)
+        p = os.path.join(OUT, "evidence", "%s.json" % self.pid)
         open(p, "w").write(json.dumps(ev, indent=1, default=str) + "\n")
         self.log("evidence written:", p, "violations:", len(self.violations))
         return 1 if self.violations else 0
@@ -514,8 +518,9 @@ def g1_build(bins, timeout=3000):
     wd = os.path.join(VERIF, "harness", "g1")
     lk = os.path.join(BUILD, "g1gen.lock")
     os.makedirs(BUILD, exist_ok=True)
-    rc, out = sh("flock %s python3 gen_dropin.py" % lk, cwd=wd, timeout=300)
+    dropin = os.path.join(BUILD, "sync-dropin")
+    rc, out = sh("flock %s python3 gen_dropin.py %s" % (lk, dropin), cwd=wd, timeout=300)
     if rc != 0:
         return False, "drop-in generation failed (expected alias block not found?):\n" + out, None
-    ok, out2, tdir = cargo_build("g1", bins=bins, timeout=timeout)
+    ok, out2, tdir = cargo_build("g1", bins=bins, timeout=timeout, extra="--config 'paths=[\"%s\"]'" % dropin)
     return ok, out + out2, tdir
